@@ -59,8 +59,14 @@ def run(ctx: core.Ctx):
     ctx.count("exhaustive rank patterns", len(series))
     for _ in range(ctx.budget(150, 1500)):
         n = rng.choice([8, 10, 12, 20, 36, 60, 100, 200])
-        kind = rng.choice(["ties", "rain", "ndvi", "walk", "const-ish"])
-        if kind == "ties":
+        kind = rng.choice(["ties", "rain", "ndvi", "walk", "const-ish", "near-ties", "near-ties"])
+        if kind == "near-ties":
+            # float32-representable values, some exactly tied, some distinct but within 1e-5 relative of each other
+            base = float(np.float32(rng.choice([1200.0, 3.5, 25000.0])))
+            ulp = float(np.spacing(np.float32(base)))
+            pool = [base + k * ulp for k in range(0, 6)] + [base * rng.uniform(0.2, 3) for _ in range(4)]
+            x = [float(np.float32(rng.choice(pool))) for _ in range(n)]
+        elif kind == "ties":
             x = [rng.randint(0, rng.choice([1, 2, 5])) for _ in range(n)]
         elif kind == "const-ish":
             x = [5] * n
@@ -102,6 +108,8 @@ def run(ctx: core.Ctx):
         if n > 12 and ctx.quick and len(items) > 50:
             items = items[:50]
         for dt in ("int16", "float32"):
+            if dt == "int16" and any(isinstance(v, float) and v != int(v) for it in items for v in it[0]):
+                continue
             arr = np.array([it[0] for it in items], dtype=dt)
             tau, p, slope, trend = stats._mann_kendall_trend_gu(arr)
             tau2, p2, slope2, trend2 = stats._mann_kendall_trend_gu_nd(arr, -9999.0)
